@@ -9,7 +9,7 @@ PROPS_MODULE = "Props.C03"
 THEOREMS = ["cumdecay_is_integral", "cumdecay_stable_zero", "atom_balance", "cumulative_model_is_integral",
             "reference_encloses_cumulative"]
 REQUIRED = ["Props/C03.v", "Model/DecayCheck.v"]
-TRANSLATORS = ["tr_data", "tr_tables", "tr_pure"]
+TRANSLATORS = ["tr_data", "synth_dataset", "tr_data_synth", "tr_tables", "tr_pure"]
 SHAPE_KEYS = ["Inventory::cumulative_decays", "InventoryHP::cumulative_decays", "AbstractInventory::_setup_decay_calc",
               "AbstractInventory::_perform_decay_calc", "AbstractInventory::_convert_decay_time", "load_dataset"]
 PARTIAL = ["float/HP error bounds on the cumulative decays are decided per case against the proved enclosure, not by a rounding theorem",
@@ -53,6 +53,11 @@ def correspondence(ctx):
                       "unit": "num", "t": float(f"{10 ** rng.uniform(5, 9):.4g}").hex(), "tunit": "s", "cum": True})
     D.decay_stream(rng, cases, "check_hp_decay Default", "cumulative_hp", streams, viol, samples,
                    "InventoryHP.cumulative_decays: relative 1e-13 of the proved enclosure", shard=2)
+    sn, ss = D.names_of("synth")
+    scases = D.gen_cases(rng, sn, ss, 100, 20, "Inventory", ds="synth", cum_every=1)
+    D.decay_stream(rng, scases, "check_float_decay Synth", "cumulative_float_synth", streams, viol, samples,
+                   "the same check on the synthetic data set (states p q r x, 365.25-day year, SF, branches not summing to one)",
+                   shard=8, ds="synth", pre=D.PRE.replace("Model.Default", "Model.Default Model.Synth"))
     return {"streams": streams, "violations": viol, "samples": samples}
 
 
